@@ -580,6 +580,44 @@ def _lower_bool_return(fn):
     return n_done
 
 
+def _to_augassign(fn):
+    """`T = T + E` / `T = T - E` with T a plain name or attribute chain is `T += E` / `T -= E` only when E is an int constant or a
+    len() call (for numbers the two are the same operation; for lists `+=` would be in-place - not rewritten)."""
+    n_done = 0
+    for node in ast.walk(fn):
+        for fld in ("body", "orelse", "finalbody"):
+            body = getattr(node, fld, None)
+            if not isinstance(body, list):
+                continue
+            for i, st in enumerate(body):
+                if isinstance(st, ast.Assign) and len(st.targets) == 1 and isinstance(st.value, ast.BinOp) and \
+                        isinstance(st.value.op, (ast.Add, ast.Sub)) and isinstance(st.targets[0], (ast.Name, ast.Attribute)) and \
+                        ast.unparse(st.targets[0]) == ast.unparse(st.value.left):
+                    e = st.value.right
+                    if (isinstance(e, ast.Constant) and isinstance(e.value, int) and not isinstance(e.value, bool)) or (
+                            isinstance(e, ast.Call) and isinstance(e.func, ast.Name) and e.func.id == "len"):
+                        new = ast.AugAssign(target=st.targets[0], op=st.value.op, value=e)
+                        body[i] = ast.copy_location(new, st)
+                        n_done += 1
+    return n_done
+
+
+def _while_guard(fn):
+    """`while True:` whose first statement is `if not C: break` (no else) is `while C:` over the remaining statements (a
+    `continue` re-evaluates C at the top of the loop either way)."""
+    n_done = 0
+    for node in ast.walk(fn):
+        if isinstance(node, ast.While) and not node.orelse and isinstance(node.test, ast.Constant) and node.test.value is True and \
+                len(node.body) >= 2 and isinstance(node.body[0], ast.If) and not node.body[0].orelse and \
+                len(node.body[0].body) == 1 and isinstance(node.body[0].body[0], ast.Break):
+            t = node.body[0].test
+            node.test = t.operand if isinstance(t, ast.UnaryOp) and isinstance(t.op, ast.Not) else \
+                ast.copy_location(ast.UnaryOp(op=ast.Not(), operand=t), t)
+            del node.body[0]
+            n_done += 1
+    return n_done
+
+
 def _with_suppress(fn):
     """`with contextlib.suppress(E1, E2): BODY` is `try: BODY except (E1, E2): pass` (the documented equivalence; only for the
     single-item form without `as`). Returns the number of rewrites."""
@@ -730,6 +768,8 @@ class Repo:
             while owner is not None and owner.cls is None:
                 owner = owner.parent
             n = _tail_duplicate_return(f.node, kl.get(q, set()))
+            n += _to_augassign(f.node)
+            n += _while_guard(f.node)
             n += TI.fold_aliases(f.node, kl.get(q, set()), stable.get(owner.cls.qual, set()) if owner is not None else set())
             n += TI.normalise_function(f.node, kl.get(q, set()))
             n += _with_from_acquire(f.node)
